@@ -218,6 +218,9 @@ class MystReferenceResolver(ReferencesResolver):
 
         assert self.app.builder
 
+        # note every candidate below gets its own copy of contnode:
+        # a node shared between them would have the last one as its parent
+
         # next resolve for any other standard reference objects
         if only_domains is None or "std" in only_domains:
             stddomain = cast(StandardDomain, self.env.get_domain("std"))
@@ -229,7 +232,7 @@ class MystReferenceResolver(ReferencesResolver):
                     docname, labelid = stddomain.objects[key]
                     domain_role = "std:" + (stddomain.role_for_objtype(objtype) or "")
                     ref_node = make_refnode(
-                        self.app.builder, refdoc, docname, labelid, contnode
+                        self.app.builder, refdoc, docname, labelid, contnode.deepcopy()
                     )
                     results.append((domain_role, ref_node))
 
@@ -242,7 +245,12 @@ class MystReferenceResolver(ReferencesResolver):
             try:
                 results.extend(
                     domain.resolve_any_xref(
-                        self.env, refdoc, self.app.builder, target, node, contnode
+                        self.env,
+                        refdoc,
+                        self.app.builder,
+                        target,
+                        node,
+                        contnode.deepcopy(),
                     )
                 )
             except NotImplementedError:
@@ -258,7 +266,13 @@ class MystReferenceResolver(ReferencesResolver):
                     )
                 for role in domain.roles:
                     res = domain.resolve_xref(
-                        self.env, refdoc, self.app.builder, role, target, node, contnode
+                        self.env,
+                        refdoc,
+                        self.app.builder,
+                        role,
+                        target,
+                        node,
+                        contnode.deepcopy(),
                     )
                     if res and len(res) and isinstance(res[0], nodes.Element):
                         results.append((f"{domain.name}:{role}", res))
